@@ -114,7 +114,10 @@ def runModel (ts : List String) : String :=
   match ts with
   | "rt" :: rest =>
     match parseRt rest with
-    | some c => let (o, w) := modelRt c; obsStr o ++ " wire " ++ hexOfBytes w
+    | some c =>
+      let (o, w) := modelRt c
+      let calls := (c.pkts.map (writeCalls c.codec)).flatten.map (·.length)
+      obsStr o ++ " wire " ++ hexOfBytes w ++ " wc " ++ ",".intercalate (calls.map toString)
     | none => "bad-case"
   | _ => "bad-case"
 
